@@ -704,6 +704,19 @@ class Gen:
         return self.arg()
 
 
+def use_dependent_literals(draw, nodes):
+    """Literals that have dependencies (the barrier / phase-marker idiom) are mostly used for ordering only; hand some
+    of them to a later call as an ordinary positional argument too (the literal's value is then an input of the call,
+    and the call inherits the literal's dependencies)."""
+    for i, nd in enumerate(nodes):
+        if nd["k"] == "lit" and nd.get("deps") and not nd.get("stored") and draw(st.booleans()):
+            later = [j for j in range(i + 1, len(nodes)) if nodes[j]["k"] == "call" and nodes[j]["beh"]["t"] != "seq"]
+            if later:
+                j = draw(st.sampled_from(later))
+                if {"n": i} not in nodes[j]["args"]:
+                    nodes[j]["args"].append({"n": i})
+
+
 @st.composite
 def plan_specs(draw, max_nodes=8, registry=False, failures=0, opaque=True, flaky=False,
                min_nodes=1, lits=1, shared=False, exotic=False):
